@@ -31,7 +31,7 @@ func TestSweep(t *testing.T) {
 									continue
 								}
 								for _, kind := range []string{"write", "read"} {
-									c := &Case{S: s, B: b, C: C, Kr: kr, A: a, Bf: bf, Ops: []Op{{Kind: kind, N: N, Vals: vals}}}
+									c := &Case{S: s, B: b, C: C, Kr: kr, A: a, Bf: bf, Fix: (N + a) % 3, Ops: []Op{{Kind: kind, N: N, Vals: vals}}}
 									Oracle.One(t, env, rec, "sweep", c)
 								}
 							}
@@ -45,8 +45,10 @@ func TestSweep(t *testing.T) {
 								}
 								lens[C-1] = L
 								for _, kind := range []string{"writeStriped", "readStriped"} {
-									c := &Case{S: s, B: b, C: C, Kr: kr, A: a, Bf: bf, Ops: []Op{{Kind: kind, Lens: lens, Vals: vals}}}
-									Oracle.One(t, env, rec, "sweep", c)
+									for fix := 0; fix <= 2; fix++ {
+										c := &Case{S: s, B: b, C: C, Kr: kr, A: a, Bf: bf, Fix: fix, Ops: []Op{{Kind: kind, Lens: lens, Vals: vals}}}
+										Oracle.One(t, env, rec, "sweep", c)
+									}
 								}
 							}
 						}
